@@ -65,8 +65,11 @@ def check_comparisons(failures):
             break
     # the same for COMPUTED values that land on a boundary (an overflowed result that rounds to -2^63, 2^63, 2^53):
     # exactly one of <, ==, > against the stored integer next to it, and equal values group together
-    crow = json.dumps({'m': -2**63, 'M': 2**63 - 1, 'h': -4611686018427387905, 'H': 4611686018427387904, 'p': 2**53, 'one': 1, 'zero': 0}) + '\n'
-    for expr, other in (('m - one', 'm'), ('m + (zero - one)', 'm'), ('h * 2', 'm'), ('h + h', 'm'), ('M + one', 'M'), ('H * 2', 'M'), ('p + one', 'p'), ('m - zero', 'm'), ('M + zero', 'M')):
+    crow = json.dumps({'m': -2**63, 'M': 2**63 - 1, 'h': -4611686018427387905, 'H': 4611686018427387904, 'p': 2**53, 'one': 1, 'zero': 0,
+                       'q': 10**16, 'r': 2**60, 'c': 10**18}) + '\n'
+    for expr, other in (('m - one', 'm'), ('m + (zero - one)', 'm'), ('h * 2', 'm'), ('h + h', 'm'), ('M + one', 'M'), ('H * 2', 'M'), ('p + one', 'p'), ('m - zero', 'm'), ('M + zero', 'M'),
+                        # the result of a FUNCTION that is an integer beyond 2^53 is that integer too (one normalisation for every producer)
+                        ('hypot(q, zero)', 'q'), ('hypot(zero, r)', 'r'), ('sqrt(c) * sqrt(c)', 'c'), ('abs(zero - q)', 'q'), ('sqrt(r) * sqrt(r)', 'r')):
         q2 = '* | json | %s as x | x < %s as lt | x == %s as eq | x > %s as gt | x <= %s as le | x >= %s as ge | x != %s as ne | fields lt, eq, gt, le, ge, ne' % ((expr,) + (other,) * 6)
         ok2, rows2, o2 = run_raw(q2, [crow])
         n += 1
